@@ -457,6 +457,75 @@ func c17Callback(r *core.Run, idx int, rng *rand.Rand) {
 	}
 }
 
+// c17Overlap: the page of session A goes to a client that reads slowly - its first write stalls - and the page of
+// session B (same provider) is produced and sent completely meanwhile; then A's page is finished. Each page is the
+// fixed template with the values of its own session.
+func c17Overlap(r *core.Run, idx int, rng *rand.Rand) {
+	const wl = "pages_written_while_another_is_produced"
+	c17Skeletons()
+	if c17SkelErr != "" {
+		return
+	}
+	mk := func(tag string) *cbScenario {
+		sc := randScenario(rng, fmt.Sprintf("MK%d%s", idx, tag), false)
+		sc.Host = ""
+		sc.S.Binding = spsim.BindPost
+		sc.S.RelayState = "relay-of-" + tag + "-" + hostileRelay(rng)
+		sc.S.ACS = hostileEndpoint(rng, tag+".sp.example", 0, false)
+		return sc
+	}
+	a, b := mk("a"), mk("b")
+	a.Opts = b.Opts
+	e := a.build()
+	b.install(e.W)
+	bDone := make(chan struct{})
+	stalled := false
+	var once sync.Once
+	var callA *env.Call
+	doneA := make(chan struct{})
+	go func() {
+		defer close(doneA)
+		callA = e.Do(env.Req{Path: env.PathLogin, Query: "id=" + url.QueryEscape(a.S.ID), Tag: fmt.Sprintf("ov%da", idx), OnWrite: func() {
+			once.Do(func() {
+				stalled = true
+				select {
+				case <-bDone:
+				case <-time.After(2 * time.Second):
+				}
+			})
+		}})
+	}()
+	// B is asked for when A's first write has had time to begin (or A has finished without writing a page)
+	select {
+	case <-doneA:
+	case <-time.After(15 * time.Millisecond):
+	}
+	callB := e.Do(env.Req{Path: env.PathLogin, Query: "id=" + url.QueryEscape(b.S.ID), Tag: fmt.Sprintf("ov%db", idx)})
+	close(bDone)
+	<-doneA
+	if stalled {
+		r.Count("pages_whose_first_write_stalled_while_another_page_was_sent", 1)
+	}
+	for _, x := range []struct {
+		name string
+		sc   *cbScenario
+		call *env.Call
+	}{{"stalled_page", a, callA}, {"page_sent_meanwhile", b, callB}} {
+		class := "overlap|" + x.name
+		desc := map[string]any{"relay_state": clipS(x.sc.S.RelayState, 300), "acs": x.sc.S.ACS, "stalled": stalled}
+		r.Eval(fmt.Sprintf("%s|%d", class, idx))
+		if x.call.Panic != "" {
+			r.Violate(core.Violation{Clause: "panic", Class: class, Reason: x.call.Panic, Workload: wl, Index: idx, Case: desc, Observed: x.call.Describe()})
+			continue
+		}
+		if x.call.D.Kind != "form" {
+			r.Count("not_a_form_"+x.call.D.Kind, 1)
+			continue
+		}
+		c17Judge(r, wl, idx, class, c17PostSkel, x.call.D, x.sc.S.ACS, x.sc.S.RelayState, desc, x.call)
+	}
+}
+
 func c17SSOError(r *core.Run, idx int, rng *rand.Rand) {
 	const wl = "sso_error_pages"
 	c17Skeletons()
@@ -670,6 +739,7 @@ func init() {
 				{Name: "sso_error_pages", N: c.Pick(800, 10000), Fn: c17SSOError},
 				{Name: "logout_pages", N: c.Pick(800, 10000), Fn: c17Logout},
 				{Name: "pages_after_failed_write", N: c.Pick(100, 1000), Fn: c17AfterFailedWrite},
+				{Name: "pages_written_while_another_is_produced", N: c.Pick(60, 600), Fn: c17Overlap},
 				{Name: "dictionary_values", N: (len(repoDictionary()) + 7) / 8, Fn: c17Dictionary},
 			}
 		},
